@@ -16,6 +16,8 @@ RULE = ('the C01 event alphabet (single-connection regime) plus REST sends (upda
         'a count of frames by type in the write log of the connection it reports on and in the stream delivered to it '
         '(frames >= the type minimum length); distinct = distinct abstract world fingerprints')
 ASSUMPTIONS = ['simulated Twisted reactor/transport (verif/shims)', 'reference deframer vlib/wire.py',
+               'events of every second walk may leave their instant unfinished (NAME~); while a write handed to the reactor thread is still queued the counters are not judged (counted, not yet written: a transient of correct code)',
+               'application requests through the handler queue (Q_UPD, Q_WD, Q_NOTI) are part of the alphabet',
                'frames completed in the same chunk after the one on which the agent closed: receive side of that connection not judged']
 SHARD_TIMEOUT = {'quick': 600, 'thorough': 1500}
 DEPTH = {'quick': (3, 6), 'thorough': (4, 8)}
